@@ -32,7 +32,7 @@ def check(c, item):
     case = dict(spec=sp, stochastic=stochastic)
     with warnings.catch_warnings():
         warnings.simplefilter('ignore')
-        m = to_model(sp)
+        m = to_model(sp) if not sp.get('after_failed_create') else failed_create_model(sp)
         try:
             path = write_model(m, stochastic)
         except Exception as e:
@@ -45,7 +45,11 @@ def check(c, item):
             c.violation(key + 'invalid-document', 'libsbml reports errors reading the written file: %s' % doc.getErrorLog().toString()[:300], case)
             return
         species_ids = {s.getId() for s in model.getListOfSpecies()}
-        gparams = {p.getId(): p.getValue() for p in model.getListOfParameters()}
+        gparams = {p.getId(): (p.getValue() if p.isSetValue() else float('nan')) for p in model.getListOfParameters()}
+        if sp.get('after_failed_create') and model.getNumReactions() != len(sp['reactions']):
+            c.violation(key + 'reaction-count', 'the document has %d reactions, the model %d (a create_reaction call that raised left something behind)' % (
+                model.getNumReactions(), len(sp['reactions'])), case)
+            return
         props = m.get_propensities()
         pvals = m.get_parameter_values()
         names = sp['species']
@@ -85,6 +89,10 @@ def check(c, item):
                         break
                     continue
                 c.count('evaluations'); c.count('transitions')
+                if math.isfinite(want) and not math.isfinite(got):
+                    c.violation(key + 'value-not-finite', 'kinetic law %s evaluates to %r at %s (a parameter without a value in the document?), the model\'s rate is %r' % (
+                        L.formulaToL3String(ast), got, x, want), dict(case, x=x))
+                    break
                 if not (math.isfinite(want) and math.isfinite(got)):
                     continue
                 if want != 0:
@@ -112,10 +120,35 @@ def check(c, item):
         os.remove(path)
 
 
+def failed_create_model(sp):
+    """the same reactions, but between the first and the second a create_reaction call with an unsupported rate raises (and is caught)"""
+    from ..modelspec import reaction_tuple
+    m = to_model(dict(sp, reactions=sp['reactions'][:1]))
+    try:
+        m.create_reaction(['A'], ['B'], 'general', {'rate': 'kf*C*sin(A)'})
+    except Exception:
+        pass
+    for r in sp['reactions'][1:]:
+        m.create_reaction(*reaction_tuple(r))
+    m.py_initialize()
+    return m
+
+
 def specs(tier):
+    from ..nets import spec, ma, gen
     out = FAM.single_reaction_specs(tier)
     x0 = {'A': 2.0, 'B': 3.0, 'C': 1.5}
-    return [s for s in out if 'delay' not in s['name']]
+    out = [s for s in out if 'delay' not in s['name']]
+    # constants that are exactly zero (named and numeric), alone and inside a general rate
+    P0 = dict(FAM.PARAMS, kz=0.0)
+    out.append(spec('massaction/zero-named', FAM.SP, x0, [ma(['A', 'B'], ['C'], 'kz'), ma(['C'], ['A'], 'kf')], P0))
+    out.append(spec('massaction/zero-numeric', FAM.SP, x0, [ma(['A'], ['C'], 0.0), ma(['C'], ['A'], 1.2)], P0))
+    out.append(spec('general/g_zero_constant', FAM.SP, x0, [gen(['A'], ['B'], ('/', ('*', ('id', 'kf'), ('id', 'A')), ('+', ('num', 1), ('*', ('id', 'kz'), ('id', 'B')))))], P0))
+    # an export after a create_reaction call that raised
+    s2 = spec('massaction/after-failed-create', FAM.SP, x0, [ma(['A', 'B'], ['C'], 'kf'), ma(['C'], ['A', 'A'], 0.6), ma(['A', 'A'], ['B'], 0.3)], FAM.PARAMS)
+    s2['after_failed_create'] = True
+    out.append(s2)
+    return out
 
 
 def run(ctx):
